@@ -37,14 +37,12 @@ func main() {
 			fmt.Fprintf(os.Stderr, "BROKEN: %v\n", err)
 			os.Exit(2)
 		}
-		fmt.Println("# reference inventory of function declarations (pkgpath Name | pkgpath Recv.Name); regenerate with wharfcheck -dump-funcs")
-		for _, k := range p.Inventory() {
-			fmt.Println(k)
-		}
+		b, _ := json.MarshalIndent(core.BuildInventory(p.Roots), "", " ")
+		fmt.Println(string(b))
 		return
 	}
 	if !*noNorm {
-		core.InventoryFile = *verif + "/baseline_funcs.txt"
+		core.InventoryFile = *verif + "/baseline_inventory.json"
 	}
 
 	if *list {
@@ -215,6 +213,7 @@ func runAll(repo, verif string) int {
 	}
 	sort.Strings(ids)
 	rc := 0
+	printAliases(p)
 	printNorm(p)
 	for _, id := range ids {
 		c := core.NewCtx(p, id, "quick")
@@ -252,5 +251,14 @@ func printNorm(p *core.Prog) {
 	}
 	for _, s := range p.Norm.Notes {
 		fmt.Printf("  note: %s\n", s)
+	}
+}
+
+func printAliases(p *core.Prog) {
+	if p.Aliases == nil {
+		return
+	}
+	for _, s := range p.Aliases.Notes {
+		fmt.Printf("alias: %s\n", s)
 	}
 }
